@@ -236,6 +236,21 @@ def _settle(s, rounds=2):
             s.wait_quiescent()
 
 
+def _await(s, ts, rounds=8):
+    """Wait for the driver threads.  The main task stays passive (it only runs when nothing else can), and while a
+    driver is blocked on something only a ProcessWatcher's periodic poll can provide (stop() joining a watcher that
+    was never stopped, wait_for_process) it lets the poll timers come due a few times; if that does not help the
+    final join() reports the exact deadlock."""
+    for _ in range(rounds):
+        s.wait_quiescent()
+        if all(t._finished for t in ts):
+            break
+        if not s.fire_manual_timers():
+            break
+    for t in ts:
+        t.join()
+
+
 def ar_program(params):
     """params: {"roe": bool, "deb": 0|interval units, "dos": bool, "kill_after": seconds, "fine": bool, "fam": str,
                 "threads": {"disp": [op...], "env": [...], "app": [...]}}
@@ -292,12 +307,10 @@ def ar_program(params):
                     _settle(s)
                     s.log("quiescent")
 
-        ts = [th.Thread(target=worker, args=(ops,), name=n) for n, ops in sorted(threads.items()) if n != "main"]
+        ts = [th.Thread(target=worker, args=(ops,), name=n) for n, ops in sorted(threads.items())]
         for t in ts:
             t.start()
-        worker(threads.get("main", []))   # the main task plays environment / application itself (fewer tasks)
-        for t in ts:
-            t.join()
+        _await(s, ts)
         _settle(s)
         s.log("quiescent")
         s.log("final", live=_live_helpers(s), count=trick.restart_count)
